@@ -387,14 +387,16 @@ Proof.
                 {| cn := cn s; ch := Z.min ((q + 1) * hb) (ch e); cw := cw s; cc := cc s |}) as [a2'|] eqn:E2; [|discriminate].
     injection HR as <- _ _ <- _ <- _.
     pose proof (afc_row _ _ _ _ _ _ _ _ _ E0 E2 eq_refl eq_refl eq_refl) as Hrow. cbn [ch] in Hrow. fold hb sy m in Hrow.
-    rewrite Z.min_l in * by lia.
+    assert (Hlt : (q + 1) * hb < ch e) by lia.
+    rewrite Z.min_l in Hrow by lia. rewrite Z.min_l by lia.
     assert (Hm0 : ((q + 1) * hb) mod hb = 0) by (apply Z.mod_mul; lia). rewrite Hm0 in Hrow.
     unfold tile_row_addr.
     destruct (Z.ltb_spec t ((q + 1) * hb - ch s)).
     + rewrite Lap1 by lia. ring.
     + rewrite Lap2 by lia. replace a2' with (a0' + (0 - m) * sy) by lia. ring.
   - injection HR as <- _ _ <- _ _ _.
-    unfold tile_row_addr. rewrite Z.min_r in * by lia.
+    assert (Hle : ch e <= (q + 1) * hb) by lia.
+    unfold tile_row_addr. rewrite Z.min_r by lia.
     destruct (Z.ltb_spec t (ch e - ch s)); [|lia].
     rewrite Lap1 by lia. ring.
 Qed.
